@@ -46,3 +46,19 @@ if os.path.exists(rp):
         t = t[:m.start()] + m.group(1) + m.group(2) + '\n'.join(rrows) + '\n' + m.group(4) + t[m.end():]
         open(p, 'w').write(t)
         print(len(rrows) - 2, 'refactor rows')
+
+# ---- current rule set per property (from the evidence the last quick runs wrote)
+rows3 = ['| property | rules that produced obligations on the last run (count) |', '|---|---|']
+for pid in ['C%02d' % i for i in range(1, 19)]:
+    ep = os.path.join(V, 'evidence', pid + '.json')
+    if not os.path.exists(ep):
+        rows3.append('| %s | not applicable |' % pid)
+        continue
+    e = json.load(open(ep))
+    br = e.get('coverage', {}).get('by_rule', {})
+    rows3.append('| %s | %s |' % (pid, ', '.join('%s (%d)' % (k, sum(v.values())) for k, v in br.items())))
+t = open(p).read()
+if 'RULESET-TABLE-BEGIN' in t:
+    t = re.sub(r'RULESET-TABLE-BEGIN.*?RULESET-TABLE-END', 'RULESET-TABLE-BEGIN\n' + '\n'.join(rows3) + '\nRULESET-TABLE-END', t, flags=re.S)
+    open(p, 'w').write(t)
+    print('ruleset table')
